@@ -57,6 +57,10 @@ def gen_file(rng, fid, journald):
             if rng.random() < 0.15:
                 k = rng.randint(1, 4)
                 rec["fields"] = rec["fields"] + [("xk%d" % j, "v%d" % rng.randint(0, 9)) for j in rng.sample(range(9), k)]
+            if rng.random() < 0.15:
+                # another field order (the kernel's order differs between classes and versions): pid=/peer_pid= as the last field
+                last = [x for x in rec["fields"] if x[0] in ("pid", "peer_pid")][-1:]
+                rec["fields"] = [x for x in rec["fields"] if x not in last] + last
             rec["expect"] = True
             rec["line_no"] = len(lines)
             recs.append(rec)
